@@ -72,6 +72,9 @@ EvalCoalesce(args, row, env, db) ==
 RECURSIVE SumSeq(_)
 SumSeq(s) == IF s = <<>> THEN 0 ELSE s[1][1] + SumSeq(Tail(s))
 
+RECURSIVE SqSumSeq(_)
+SqSumSeq(s) == IF s = <<>> THEN 0 ELSE s[1][1] * s[1][1] + SqSumSeq(Tail(s))
+
 RECURSIVE MinSeq(_), MaxSeq(_)
 MinSeq(s) == IF Len(s) = 1 THEN s[1]
              ELSE LET m == MinSeq(Tail(s)) IN IF NumLt(s[1], m) THEN s[1] ELSE m
@@ -85,6 +88,11 @@ AggValue(f, star, vals, n) ==
     [] f = "min"   -> IF vals = <<>> THEN NULL ELSE MinSeq(vals)
     [] f = "max"   -> IF vals = <<>> THEN NULL ELSE MaxSeq(vals)
     [] f = "avg"   -> IF vals = <<>> THEN NULL ELSE Rat(SumSeq(vals), Len(vals))
+    (* population / sample variance, exactly: (n * sum(x^2) - sum(x)^2) / n^2  resp.  / (n (n - 1)) *)
+    [] f = "var_pop"  -> IF vals = <<>> THEN NULL
+                         ELSE LET m == Len(vals) s == SumSeq(vals) IN Rat(m * SqSumSeq(vals) - s * s, m * m)
+    [] f = "var_samp" -> IF Len(vals) < 2 THEN NULL
+                         ELSE LET m == Len(vals) s == SumSeq(vals) IN Rat(m * SqSumSeq(vals) - s * s, m * (m - 1))
     [] f = "bool_and" -> IF vals = <<>> THEN NULL ELSE B(\A i \in DOMAIN vals : vals[i] = T)
     [] f = "bool_or"  -> IF vals = <<>> THEN NULL ELSE B(\E i \in DOMAIN vals : vals[i] = T)
 
